@@ -231,7 +231,7 @@ func (g *c20Gen) relation(ver string, have map[string]bool, idPK bool) []c20Fiel
 		}
 	}
 	if idPK {
-		for _, k := range []string{"toys", "badge", "tags"} {
+		for _, k := range []string{"toys", "badge", "tags", "pics"} {
 			if !have[k] {
 				opts = append(opts, k)
 			}
@@ -271,6 +271,8 @@ func (g *c20Gen) relation(ver string, have map[string]bool, idPK bool) []c20Fiel
 		return []c20Field{{Name: "Badge", Kind: "badge", Tag: join("foreignKey:GenID", cons)}}
 	case "tags":
 		return []c20Field{{Name: "Tags", Kind: "tags", Tag: join("many2many:gen_tags", cons)}}
+	case "pics":
+		return []c20Field{{Name: "Pics", Kind: "pics", Tag: join("polymorphic:Host", cons)}}
 	case "audit":
 		return []c20Field{{Name: "Audit", Kind: "audit", Tag: g.pick("embedded", "embedded;embeddedPrefix:a_")}}
 	}
@@ -414,6 +416,36 @@ func c20GenSpec(rng *rand.Rand, tricky bool) c20Spec {
 				g.f("v2:add-field")
 			}
 		}
+	}
+	// ---- configuration and the value lists of the two AutoMigrate calls (c20_opts.go)
+	if rng.Intn(2) == 0 {
+		sp.Cfg = c20GenCfg(rng)
+	}
+	extras := func(fs []c20Field) []string {
+		var ks []string
+		for _, f := range fs {
+			if c20IsRel(f.Kind) && rng.Intn(2) == 0 {
+				ks = append(ks, f.Kind)
+			}
+		}
+		if len(ks) == 0 && rng.Intn(3) > 0 {
+			return nil // the model alone
+		}
+		ks = append(ks, "hub")
+		rng.Shuffle(len(ks), func(i, j int) { ks[i], ks[j] = ks[j], ks[i] })
+		return ks
+	}
+	if rng.Intn(2) == 0 {
+		sp.Extra1 = extras(sp.V1)
+	}
+	if rng.Intn(2) == 0 {
+		sp.Extra2 = extras(sp.V2)
+	}
+	if sp.Cfg != nil {
+		g.f("cfg:" + sp.Cfg.String())
+	}
+	if len(sp.Extra1)+len(sp.Extra2) > 0 {
+		g.f("call:explicit-relatives")
 	}
 	for k := range g.feat {
 		sp.Feat = append(sp.Feat, k)
